@@ -84,7 +84,7 @@ def run(tier):
 
     for job, e in zip(jobs, emits):
         c.replay("mixer", e)
-        for v in ("reinit-drained", "reinit-peeked", "reinit-mid", "reinit-closed", "reinit-closedmid", "tease"):
+        for v in ("reinit-drained", "reinit-peeked", "reinit-mid", "reinit-closed", "reinit-closedmid", "tease", "funcs"):
             c.replay("mixer", e, variant=v)
         if job[2]:
             c.replay("mixer", e, variant="nested")
